@@ -63,7 +63,7 @@ func genC10(r *h.Rng, tier string, idx int) *h.Plan {
 	for i := 0; i < n; i++ {
 		loc := r.Pick(locs)
 		id := r.Pick(own[loc])
-		switch r.Weighted([]int{8, 3, 4, 4, 2, 2, 2, 1, 1}) {
+		switch r.Weighted([]int{8, 3, 4, 4, 2, 2, 2, 1, 1, 3}) {
 		case 0:
 			p.Ops = append(p.Ops, h.Op{K: "addrule", Loc: loc, Id: id, J: mkRule(id)})
 		case 1:
@@ -93,6 +93,14 @@ func genC10(r *h.Rng, tier string, idx int) *h.Plan {
 			p.Ops = append(p.Ops, h.Op{K: "addfact", Loc: loc, Id: id, J: map[string]interface{}{"plain": "data"}})
 		case 8:
 			p.Ops = append(p.Ops, h.Op{K: "clear", Loc: loc})
+		case 9:
+			// the flag written through the facts API, as the property fact it is
+			// (this form carries no deleteWith; it goes with the rule all the same)
+			target := loc
+			if withParent && loc == "P" && r.Bool() {
+				target = "L"
+			}
+			p.Ops = append(p.Ops, h.Op{K: "addfact", Loc: target, J: map[string]interface{}{"id": id, "!disabled": r.P(2, 3)}})
 		}
 	}
 	var events []interface{}
